@@ -272,7 +272,7 @@ def main(tier, seed, replay=None):
             hs = res.tagged("H")
             if len(hs) > (6000 if q else 150000):
                 k = len(hs) // (6000 if q else 150000) + 1
-                hs = hs[seed % k::k]
+                hs = par.sample(hs, k, seed)
             cfgs = [200] if q else [200, 2600]
             jobs = [(h, root, cb) for h in hs for cb in cfgs]
             for case, viol in par.pmap(_replay, jobs, chunk=60):
